@@ -428,6 +428,10 @@ pub struct GenOpts {
     /// by another zone's own glued name server plus a name in that zone that does
     /// not exist: looking the ghost up fails, but brings the other server's glue.
     pub ghost_ns_percent: u8,
+    /// Per cent of the second-level-and-deeper zones that are served by their
+    /// PARENT's own name server (the same host is met again one referral later;
+    /// needs the servers' `sibling_glue` for the parent to send its address along).
+    pub parent_ns_serves_child_percent: u8,
 }
 
 impl Default for GenOpts {
@@ -445,6 +449,7 @@ impl Default for GenOpts {
             zero_ttl_outside_ns_addresses: 0,
             short_ttl_value: 0,
             ghost_ns_percent: 0,
+            parent_ns_serves_child_percent: 0,
         }
     }
 }
@@ -636,6 +641,32 @@ pub fn generate(r: &mut Rng, opts: &GenOpts) -> Universe {
                     u.zones[other].records.extend(recs);
                 }
                 u.zones[z].ns = vec![host];
+            }
+        }
+    }
+    // a zone served by its parent's own server
+    if opts.parent_ns_serves_child_percent > 0 {
+        for zi in 2..u.zones.len() {
+            if r.below(100) >= u64::from(opts.parent_ns_serves_child_percent) {
+                continue;
+            }
+            let Some(pz) = (1..u.zones.len()).find(|&p| u.children(p).contains(&zi)) else {
+                continue;
+            };
+            let used_elsewhere = u
+                .zones
+                .iter()
+                .enumerate()
+                .any(|(i, o)| i != zi && o.ns.iter().any(|h| under(h, &u.zones[zi].apex)));
+            // (all of them, so that whichever was asked about the parent is named again)
+            let hosts: Vec<String> = u.zones[pz]
+                .ns
+                .iter()
+                .filter(|h| under(h, &u.zones[pz].apex) && !under(h, &u.zones[zi].apex) && !u.host_addresses(h).is_empty())
+                .cloned()
+                .collect();
+            if !used_elsewhere && !hosts.is_empty() {
+                u.zones[zi].ns = hosts;
             }
         }
     }
